@@ -66,7 +66,17 @@ struct Payload
     int tag;
     unsigned magic = 0x600D;
     explicit Payload(int t = 0) : tag(t) { ++live; ++constructed; }
-    Payload(Payload const& o) : tag(o.tag) { o.check(); ++live; ++constructed; }
+    // copy fuse: when armed (> 0) the fuse-th copy construction from now on throws a TaggedError-like exception
+    // (a value type whose copy constructor can fail is user code; where an adaptor copies a value, the failure
+    // must arrive as an error completion)
+    static inline int copy_fuse = 0, copy_thrown = 0;
+    struct CopyFailed { int tag = -3; };
+    Payload(Payload const& o) : tag(o.tag)
+    {
+        o.check();
+        if (copy_fuse > 0 && --copy_fuse == 0) { copy_thrown = 1; throw CopyFailed{}; }
+        ++live; ++constructed;
+    }
     Payload(Payload&& o) noexcept : tag(o.tag) { o.check(); ++live; ++constructed; }
     Payload& operator=(Payload const& o) { o.check(); tag = o.tag; return *this; }
     Payload& operator=(Payload&& o) noexcept { o.check(); tag = o.tag; return *this; }
@@ -110,6 +120,7 @@ static int tag_of_error(std::exception_ptr const& e)
 {
     try { std::rethrow_exception(e); }
     catch (TaggedError const& t) { return t.tag; }
+    catch (Payload::CopyFailed const& c) { return c.tag; }
     catch (...) { return -2; }
 }
 struct Rec
@@ -321,6 +332,7 @@ struct Frame
     Frame()
     {
         Payload::live = Payload::constructed = Payload::destroyed = 0;
+        Payload::copy_fuse = Payload::copy_thrown = 0;
         ErrObj::live = ErrObj::constructed = ErrObj::destroyed = 0;
         g_npending = g_fired = g_expected_deferred = 0;
         g_completer_stop = 0;
@@ -552,13 +564,29 @@ static void p_split_when_all()
 // type-erased senders and the small adaptors: same completion as the plain pipeline
 static void p_erased_small()
 {
-    int ch = pmc_choose(3, 0), def = pmc_choose(2, 0), form = pmc_choose(5, 0);
+    int ch = pmc_choose(3, 0), def = pmc_choose(2, 0), form = pmc_choose(7, 0);
+    int fuse = form >= 5 ? pmc_choose(3, 0) : 0;
     Frame fr;
     Outcome o;
     {
         std::thread c(completer);
         switch (form)
         {
+        case 5:
+        case 6:
+        {
+            // a value that is handed to the type-erased receiver by reference (split sends T const&) is copied at
+            // the hand-over; the fuse makes the first / second copy after start throw: exactly one completion,
+            // the error carrying that exception
+            auto sp = ex::split(leaf(ch, def, 10));
+            Payload::copy_fuse = ch == VAL ? fuse : 0;    // (error leaves copy a Payload inside the harness' own TaggedError)
+            if (form == 5) consume(ex::unique_any_sender<Payload>(std::move(sp)), o);
+            else { ex::any_sender<Payload> as(std::move(sp)); consume(as, o); }
+            Payload::copy_fuse = 0;
+            if (Payload::copy_thrown) expect(o, ch == VAL ? ERR : ch, ch == VAL ? -3 : 10, "any_sender(split(leaf)), copy of the value throws");
+            else expect(o, ch, 10, "any_sender(split(leaf))");
+            break;
+        }
         case 0: consume(ex::unique_any_sender<Payload>(leaf(ch, def, 10) | ex::then([](Payload p) { return Payload(p.tag + 1); })), o); expect(o, ch, ch == VAL ? 11 : 10, "unique_any_sender(leaf | then)"); break;
         case 1: consume(ex::drop_value(leaf(ch, def, 10)), o); expect(o, ch, ch == VAL ? 0 : 10, "drop_value(leaf)"); break;
         case 2: consume(ex::drop_operation_state(leaf(ch, def, 10)) | ex::then([](Payload p) { return p; }), o); expect(o, ch, 10, "drop_operation_state(leaf) | then"); break;
@@ -574,7 +602,7 @@ static void p_erased_small()
         stop_completer(c);
     }
     fr.finish("erased_small");
-    pmc_outcome("%d %s", form, chn[o.channel()]);
+    pmc_outcome("%d %s %d", form, chn[o.channel()], Payload::copy_thrown);
 }
 
 // split_tuple: one predecessor sending a tuple, one sender per element, consumers on two threads
